@@ -22,6 +22,8 @@ type Terms struct {
 	aff   map[ssa.Value]*Affine
 	busy  map[ssa.Value]bool
 	index map[string]*Affine
+
+	leafMemo map[string]bool
 }
 
 // PureNote is recorded in every evidence file.
@@ -365,8 +367,13 @@ func (t *Terms) load(u *ssa.UnOp) string {
 			}
 		}
 		path := t.fieldPath(a)
-		if stableField(path) {
+		if stableField(path) || t.leafFieldStable(a) {
 			return path
+		}
+		// an earlier load of the same field with no store to that field and no
+		// call in between yields the same value
+		if first := t.earlierSameLoad(u, a); first != nil {
+			return path + "@" + first.Name()
 		}
 		return path + "@" + u.Name()
 	case *ssa.IndexAddr:
@@ -378,6 +385,103 @@ func (t *Terms) load(u *ssa.UnOp) string {
 		return "*fv:" + a.Name() + "@" + u.Name()
 	}
 	return "*" + t.Of(u.X) + "@" + u.Name()
+}
+
+// earlierSameLoad finds the earliest load of the same field (same base value,
+// same field index) from which `u` is reached without passing a store to that
+// field or any call (which might write it).
+func (t *Terms) earlierSameLoad(u *ssa.UnOp, fa *ssa.FieldAddr) *ssa.UnOp {
+	pt, ok := fa.X.Type().Underlying().(*types.Pointer)
+	if !ok {
+		return nil
+	}
+	baseTerm := t.Of(fa.X)
+	clobber := func(in ssa.Instruction) bool {
+		switch x := in.(type) {
+		case *ssa.Store:
+			if f2, isFA := x.Addr.(*ssa.FieldAddr); isFA && f2.Field == fa.Field {
+				if p2, ok := f2.X.Type().Underlying().(*types.Pointer); ok && types.Identical(p2.Elem(), pt.Elem()) {
+					return true
+				}
+			}
+		case *ssa.Go, *ssa.RunDefers:
+			return true
+		case *ssa.Call:
+			if _, isB := x.Call.Value.(*ssa.Builtin); isB {
+				return false
+			}
+			if _, pure := t.pureCallName(&x.Call); pure {
+				return false
+			}
+			return true
+		}
+		return false
+	}
+	fl := Flow{Fn: t.Fn}
+	var best *ssa.UnOp
+	for _, b := range t.Fn.Blocks {
+		for _, in := range b.Instrs {
+			cand, isLoad := in.(*ssa.UnOp)
+			if !isLoad || cand == u || cand.Op != token.MUL {
+				continue
+			}
+			f2, isFA := cand.X.(*ssa.FieldAddr)
+			if !isFA || f2.Field != fa.Field || t.Of(f2.X) != baseTerm {
+				continue
+			}
+			// cand must precede u on every path, with nothing clobbering in between
+			if !fl.mustPrecedeWith(func(i ssa.Instruction) bool { return i == ssa.Instruction(cand) }, u) {
+				continue
+			}
+			if fl.Between(cand, u, clobber) != nil {
+				continue
+			}
+			if best == nil || fl.mustPrecedeWith(func(i ssa.Instruction) bool { return i == ssa.Instruction(cand) }, best) {
+				best = cand
+			}
+		}
+	}
+	return best
+}
+
+// leafFieldStable: the function neither stores to this field (of any object of
+// the struct type) nor calls anything but pure observers and builtins, so two
+// loads of the field through the same base denote the same value.
+func (t *Terms) leafFieldStable(fa *ssa.FieldAddr) bool {
+	pt, ok := fa.X.Type().Underlying().(*types.Pointer)
+	if !ok {
+		return false
+	}
+	key := pt.Elem().String() + "#" + strconv.Itoa(fa.Field)
+	if t.leafMemo == nil {
+		t.leafMemo = map[string]bool{}
+	}
+	if v, ok := t.leafMemo[key]; ok {
+		return v
+	}
+	stable := true
+	Instrs(t.Fn, func(in ssa.Instruction) {
+		switch x := in.(type) {
+		case *ssa.Store:
+			if f2, isFA := x.Addr.(*ssa.FieldAddr); isFA && f2.Field == fa.Field {
+				if p2, ok := f2.X.Type().Underlying().(*types.Pointer); ok && types.Identical(p2.Elem(), pt.Elem()) {
+					stable = false
+				}
+			}
+		case *ssa.Go, *ssa.Defer:
+			stable = false
+		case *ssa.Call:
+			if _, isB := x.Call.Value.(*ssa.Builtin); isB {
+				return
+			}
+			if _, pure := t.pureCallName(&x.Call); pure {
+				return
+			}
+			stable = false
+		}
+	})
+	t.leafMemo[key] = stable
+	return stable
 }
 
 // frozenAfter: no store to the local is reachable from the load (so the local
